@@ -1,5 +1,6 @@
 //! C11: views (UnionGraph, PartialUnionGraph, DatasetGraph, GraphAsDataset) vs the Coq model
-//! and vs a naive set oracle, over mixed histories, for every set-like store type.
+//! and vs a naive set oracle, over mixed histories, for every set-like store type; generalized datasets (graph names of every
+//! kind of term); error paths of bulk mutations through views (failing sources, stores failing at the k-th call; ModelErr.v).
 use sophia_api::dataset::adapter::GraphAsDataset;
 use sophia_api::dataset::adapter::GraphAsDatasetMutationError;
 use sophia_api::graph::adapter::{DatasetGraph, PartialUnionGraph, UnionGraph};
@@ -10,7 +11,7 @@ use sophia_api::term::GraphName;
 use std::collections::{BTreeSet, HashSet};
 use verif_harness::*;
 use sophia_api::source::IntoSource;
-use sophia_api::source::StreamError;
+use sophia_api::source::{StreamError, StreamResult, QuadSource, TripleSource};
 use sophia_api::quad::Gspo;
 use sophia_api::graph::GTerm;
 use sophia_api::dataset::DTerm;
@@ -53,6 +54,14 @@ enum Op {
     /// only on the stores whose enumerations can fail (Flaky, FlakyG): from now on every enumeration of the STORE
     /// yields Err(MyErr(7)) first (true) / behaves normally (false)
     SetFail(bool),
+    // ---------- error paths of bulk mutations ----------
+    /// insert_all / remove_all through the view named by `gs` (as InsAll / RemAll, same routes) from a source that yields
+    /// items[..fail_at] and then FAILS with MyErr(5): the call must report the source error (or the sink error it met
+    /// earlier) and the store must hold exactly what the elementary operations on items[..fail_at] produce
+    InsAllF { gs: Vec<Option<Tid>>, quads: bool, items: Vec<Q4>, fail_at: usize, how: u8 }, RemAllF { gs: Vec<Option<Tid>>, quads: bool, items: Vec<Q4>, fail_at: usize, how: u8 },
+    /// only on the flaky stores: Some((k, sticky)) = the (k+1)-th elementary insert / remove call that reaches the STORE from
+    /// now on fails with MyErr(9) (once; if sticky, every call from then on, until the next SetBudget); None = disarm
+    SetBudget(Option<(usize, bool)>),
 }
 #[derive(Clone, Debug)]
 enum Hop { Union, PUnion(GD), Graph(Option<Tid>) }
@@ -61,7 +70,11 @@ enum GObs { Matching(MD, MD, MD), All, Contains(T3), /** 0 subjects 1 predicates
 #[derive(Clone, Debug)]
 enum DObs { Matching(MD, MD, MD, GD), All, Contains(Q4), /** ... 3 graph_names */ Terms(u8), Atoms(u64) }
 #[derive(Clone, Debug, PartialEq)]
-enum Out { Flag(bool), Triples(Vec<T3>), Quads(Vec<Q4>), Count(u64), Terms(Vec<Tid>), Err(String), Has(bool), OnlyDefault }
+enum Out { Flag(bool), Triples(Vec<T3>), Quads(Vec<Q4>), Count(u64), Terms(Vec<Tid>), Err(String), Has(bool), OnlyDefault,
+           /// a bulk mutation reported the error of its source (MyErr(5)) / the error of the store's insert or remove (MyErr(9))
+           SrcErr, SinkErr,
+           /// the answer of a mutation, and the whole content of the STORE (read directly, not through a view) right after it
+           After(Box<Out>, Vec<Q4>) }
 
 #[derive(Clone, Debug)]
 enum GOp { Insert(Q4), Remove(Q4), Contains(Q4), Query(MD, MD, MD, GD), All, DirectInsert(T3), DirectRemove(T3),
@@ -417,21 +430,42 @@ impl OnlyDef for sophia_inmem::index::TermIndexFullError { fn only_default(&self
 impl<E: std::error::Error + OnlyDef> OnlyDef for GraphAsDatasetMutationError<E> {
     fn only_default(&self) -> bool { match self { GraphAsDatasetMutationError::OnlyDefaultGraph => true, GraphAsDatasetMutationError::Graph(e) => e.only_default() } }
 }
+/// the store's own mutation error, however many GraphAsDataset layers wrapped it
+fn is_store_err(dbg: &str) -> bool { dbg.trim_start_matches("Graph(").trim_end_matches(')') == "MyErr(9" }
+/// canonical form of an answer: the injected mutation error of the store is a value of its own
+fn canon(o: Out) -> Out { match o { Out::Err(e) if is_store_err(&e) => Out::SinkErr, o => o } }
 fn flag<E: OnlyDef + std::fmt::Debug>(x: Result<bool, E>) -> Out {
-    match x { Ok(b) => Out::Flag(b), Err(e) if e.only_default() => Out::OnlyDefault, Err(e) => Out::Err(format!("{e:?}")) }
+    match x { Ok(b) => Out::Flag(b), Err(e) if e.only_default() => Out::OnlyDefault, Err(e) => canon(Out::Err(format!("{e:?}"))) }
 }
-fn count<E: OnlyDef + std::fmt::Debug + std::error::Error>(x: Result<usize, StreamError<Infallible, E>>) -> Out {
-    match x { Ok(n) => Out::Count(n as u64), Err(StreamError::SinkError(e)) if e.only_default() => Out::OnlyDefault, Err(e) => Out::Err(format!("{e:?}")) }
+fn count<SE: std::error::Error, E: OnlyDef + std::fmt::Debug + std::error::Error>(x: Result<usize, StreamError<SE, E>>) -> Out {
+    match x {
+        Ok(n) => Out::Count(n as u64),
+        Err(StreamError::SinkError(e)) if e.only_default() => Out::OnlyDefault,
+        Err(StreamError::SinkError(e)) => canon(Out::Err(format!("{e:?}"))),
+        Err(StreamError::SourceError(e)) => if format!("{e:?}") == "MyErr(5)" { Out::SrcErr } else { Out::Err(format!("source error {e:?}")) },
+    }
+}
+/// a source that yields the first `left` items of `it` and then fails (once) with MyErr(5)
+struct FSrc<X> { it: std::vec::IntoIter<X>, left: usize, done: bool }
+impl<X> FSrc<X> { fn new(v: Vec<X>, fail_at: usize) -> Self { FSrc { it: v.into_iter(), left: fail_at, done: false } } }
+impl<X> Iterator for FSrc<X> {
+    type Item = Result<X, MyErr>;
+    fn next(&mut self) -> Option<Self::Item> {
+        if self.done { return None }
+        if self.left == 0 { self.done = true; return Some(Err(MyErr(5))) }
+        self.left -= 1;
+        match self.it.next() { Some(x) => Some(Ok(x)), None => { self.done = true; Some(Err(MyErr(5))) } }
+    }
 }
 // mutations through the `&mut T` forwarding impls (which forward EVERY method, provided ones included)
 fn fwd_dinsert<M: MutableDataset>(mut m: M, [s, p, o]: [ST; 3], g: Option<ST>) -> Result<bool, M::MutationError> { m.insert(s, p, o, g) }
 fn fwd_dremove<M: MutableDataset>(mut m: M, [s, p, o]: [ST; 3], g: Option<ST>) -> Result<bool, M::MutationError> { m.remove(s, p, o, g) }
 fn fwd_ginsert<M: MutableGraph>(mut m: M, [s, p, o]: [ST; 3]) -> Result<bool, M::MutationError> { m.insert(s, p, o) }
 fn fwd_gremove<M: MutableGraph>(mut m: M, [s, p, o]: [ST; 3]) -> Result<bool, M::MutationError> { m.remove(s, p, o) }
-fn fwd_dinsert_all<M: MutableDataset>(mut m: M, qs: Vec<([ST; 3], Option<ST>)>) -> Result<usize, StreamError<Infallible, M::MutationError>> { m.insert_all(qs.into_iter().into_source()) }
-fn fwd_dremove_all<M: MutableDataset>(mut m: M, qs: Vec<([ST; 3], Option<ST>)>) -> Result<usize, StreamError<Infallible, M::MutationError>> { m.remove_all(qs.into_iter().into_source()) }
-fn fwd_ginsert_all<M: MutableGraph>(mut m: M, ts: Vec<[ST; 3]>) -> Result<usize, StreamError<Infallible, M::MutationError>> { m.insert_all(ts.into_iter().into_source()) }
-fn fwd_gremove_all<M: MutableGraph>(mut m: M, ts: Vec<[ST; 3]>) -> Result<usize, StreamError<Infallible, M::MutationError>> { m.remove_all(ts.into_iter().into_source()) }
+fn fwd_dinsert_all<M: MutableDataset, S: QuadSource>(mut m: M, qs: S) -> StreamResult<usize, S::Error, M::MutationError> { m.insert_all(qs) }
+fn fwd_dremove_all<M: MutableDataset, S: QuadSource>(mut m: M, qs: S) -> StreamResult<usize, S::Error, M::MutationError> { m.remove_all(qs) }
+fn fwd_ginsert_all<M: MutableGraph, S: TripleSource>(mut m: M, ts: S) -> StreamResult<usize, S::Error, M::MutationError> { m.insert_all(ts) }
+fn fwd_gremove_all<M: MutableGraph, S: TripleSource>(mut m: M, ts: S) -> StreamResult<usize, S::Error, M::MutationError> { m.remove_all(ts) }
 fn fwd_gremove_matching<M: MutableGraph>(mut m: M, a: TM, b: TM, cc: TM) -> Result<usize, M::MutationError> where M::MutationError: From<M::Error> { m.remove_matching(a, b, cc) }
 fn fwd_gretain_matching<M: MutableGraph>(mut m: M, a: TM, b: TM, cc: TM) -> Result<(), M::MutationError> where M::MutationError: From<M::Error> { m.retain_matching(a, b, cc) }
 fn fwd_dremove_matching<M: MutableDataset>(mut m: M, a: TM, b: TM, cc: TM, g: GM) -> Result<usize, M::MutationError> where M::MutationError: From<M::Error> { m.remove_matching(a, b, cc, g) }
@@ -441,13 +475,17 @@ fn spo(c: &Ctx, t: &T3, r: &mut Rng) -> [ST; 3] { [c.term(t[0], r), c.term(t[1],
 fn name(c: &Ctx, g: &Option<Tid>, r: &mut Rng) -> Option<ST> { g.map(|g| c.term(g, r)) }
 fn triples_of(c: &Ctx, items: &[Q4], r: &mut Rng) -> Vec<[ST; 3]> { items.iter().map(|(t, _)| spo(c, t, r)).collect() }
 fn quads_of(c: &Ctx, items: &[Q4], r: &mut Rng) -> Vec<([ST; 3], Option<ST>)> { items.iter().map(|(t, g)| (spo(c, t, r), name(c, g, r))).collect() }
-fn unit<E: std::fmt::Debug>(x: Result<(), E>) -> Out { match x { Ok(()) => Out::Flag(true), Err(e) => Out::Err(format!("{e:?}")) } }
-fn cnt<E: std::fmt::Debug>(x: Result<usize, E>) -> Out { match x { Ok(n) => Out::Count(n as u64), Err(e) => Out::Err(format!("{e:?}")) } }
+fn unit<E: std::fmt::Debug>(x: Result<(), E>) -> Out { match x { Ok(()) => Out::Flag(true), Err(e) => canon(Out::Err(format!("{e:?}"))) } }
+fn cnt<E: std::fmt::Debug>(x: Result<usize, E>) -> Out { match x { Ok(n) => Out::Count(n as u64), Err(e) => canon(Out::Err(format!("{e:?}"))) } }
 
 /// a dataset store whose enumerations can fail: a view must pass the error on (and a bulk mutation through a view must
 /// give up before changing anything); everything except quads / insert / remove is the trait's provided code
 #[derive(Default)]
-struct Flaky { inner: BTreeSet<Spog<ST>>, fail: bool }
+struct Flaky { inner: BTreeSet<Spog<ST>>, fail: bool, /** see Op::SetBudget */ budget: Option<(usize, bool)> }
+/// one elementary mutation call reaching a flaky store: does it fail?
+fn tick(b: &mut Option<(usize, bool)>) -> Result<(), MyErr> {
+    match *b { None => Ok(()), Some((0, sticky)) => { if !sticky { *b = None } Err(MyErr(9)) } Some((k, sticky)) => { *b = Some((k - 1, sticky)); Ok(()) } }
+}
 impl Dataset for Flaky {
     type Quad<'x> = Spog<&'x ST>;
     type Error = MyErr;
@@ -459,12 +497,12 @@ impl Dataset for Flaky {
 impl sophia_api::dataset::SetDataset for Flaky {}
 impl MutableDataset for Flaky {
     type MutationError = MyErr;
-    fn insert<TS: Term, TP: Term, TO: Term, TG: Term>(&mut self, s: TS, p: TP, o: TO, g: GraphName<TG>) -> Result<bool, MyErr> { Ok(MutableDataset::insert(&mut self.inner, s, p, o, g).unwrap()) }
-    fn remove<TS: Term, TP: Term, TO: Term, TG: Term>(&mut self, s: TS, p: TP, o: TO, g: GraphName<TG>) -> Result<bool, MyErr> { Ok(MutableDataset::remove(&mut self.inner, s, p, o, g).unwrap()) }
+    fn insert<TS: Term, TP: Term, TO: Term, TG: Term>(&mut self, s: TS, p: TP, o: TO, g: GraphName<TG>) -> Result<bool, MyErr> { tick(&mut self.budget)?; Ok(MutableDataset::insert(&mut self.inner, s, p, o, g).unwrap()) }
+    fn remove<TS: Term, TP: Term, TO: Term, TG: Term>(&mut self, s: TS, p: TP, o: TO, g: GraphName<TG>) -> Result<bool, MyErr> { tick(&mut self.budget)?; Ok(MutableDataset::remove(&mut self.inner, s, p, o, g).unwrap()) }
 }
 /// the same for a graph store
 #[derive(Default)]
-struct FlakyG { inner: BTreeSet<[ST; 3]>, fail: bool }
+struct FlakyG { inner: BTreeSet<[ST; 3]>, fail: bool, budget: Option<(usize, bool)> }
 impl Graph for FlakyG {
     type Triple<'x> = [&'x ST; 3];
     type Error = MyErr;
@@ -476,13 +514,89 @@ impl Graph for FlakyG {
 impl sophia_api::graph::SetGraph for FlakyG {}
 impl MutableGraph for FlakyG {
     type MutationError = MyErr;
-    fn insert<TS: Term, TP: Term, TO: Term>(&mut self, s: TS, p: TP, o: TO) -> Result<bool, MyErr> { Ok(MutableGraph::insert(&mut self.inner, s, p, o).unwrap()) }
-    fn remove<TS: Term, TP: Term, TO: Term>(&mut self, s: TS, p: TP, o: TO) -> Result<bool, MyErr> { Ok(MutableGraph::remove(&mut self.inner, s, p, o).unwrap()) }
+    fn insert<TS: Term, TP: Term, TO: Term>(&mut self, s: TS, p: TP, o: TO) -> Result<bool, MyErr> { tick(&mut self.budget)?; Ok(MutableGraph::insert(&mut self.inner, s, p, o).unwrap()) }
+    fn remove<TS: Term, TP: Term, TO: Term>(&mut self, s: TS, p: TP, o: TO) -> Result<bool, MyErr> { tick(&mut self.budget)?; Ok(MutableGraph::remove(&mut self.inner, s, p, o).unwrap()) }
 }
 impl OnlyDef for MyErr { fn only_default(&self) -> bool { false } }
-trait MaybeFlaky { fn set_fail(&mut self, _b: bool) { unreachable!("SetFail is generated for the flaky stores only") } }
-impl MaybeFlaky for Flaky { fn set_fail(&mut self, b: bool) { self.fail = b } }
-impl MaybeFlaky for FlakyG { fn set_fail(&mut self, b: bool) { self.fail = b } }
+trait MaybeFlaky {
+    fn set_fail(&mut self, _b: bool) { unreachable!("SetFail is generated for the flaky stores only") }
+    fn set_budget(&mut self, _b: Option<(usize, bool)>) { unreachable!("SetBudget is generated for the flaky stores only") }
+    /// is a failure of the store's insert / remove pending?
+    fn armed(&self) -> bool { false }
+    /// switch every injected failure off (to read the content of the store) / back on
+    fn pause(&mut self) -> (bool, Option<(usize, bool)>) { (false, None) }
+    fn resume(&mut self, _saved: (bool, Option<(usize, bool)>)) {}
+}
+impl MaybeFlaky for Flaky {
+    fn set_fail(&mut self, b: bool) { self.fail = b } fn set_budget(&mut self, b: Option<(usize, bool)>) { self.budget = b } fn armed(&self) -> bool { self.budget.is_some() }
+    fn pause(&mut self) -> (bool, Option<(usize, bool)>) { let x = (self.fail, self.budget); self.fail = false; self.budget = None; x } fn resume(&mut self, x: (bool, Option<(usize, bool)>)) { self.fail = x.0; self.budget = x.1 }
+}
+impl MaybeFlaky for FlakyG {
+    fn set_fail(&mut self, b: bool) { self.fail = b } fn set_budget(&mut self, b: Option<(usize, bool)>) { self.budget = b } fn armed(&self) -> bool { self.budget.is_some() }
+    fn pause(&mut self) -> (bool, Option<(usize, bool)>) { let x = (self.fail, self.budget); self.fail = false; self.budget = None; x } fn resume(&mut self, x: (bool, Option<(usize, bool)>)) { self.fail = x.0; self.budget = x.1 }
+}
+/// is this operation a mutation (whatever its route)?
+fn is_mutation(op: &Op) -> bool {
+    matches!(op, Op::DInsert(..) | Op::DRemove(..) | Op::VInsert(..) | Op::VRemove(..) | Op::VRemoveMatching(..) | Op::VRetainMatching(..) | Op::Ins { .. } | Op::Rem { .. } | Op::InsAll { .. } | Op::RemAll { .. }
+        | Op::InsAllF { .. } | Op::RemAllF { .. } | Op::RemMatching { .. } | Op::RetMatching { .. } | Op::DRemMatching(..) | Op::DRetMatching(..))
+}
+/// the operations whose answer comes with the content of the store right after the call: the bulk mutations fed by a
+/// failing source, and every mutation issued while a failure of the store's insert / remove is pending
+fn wants_after(op: &Op, armed: bool) -> bool { matches!(op, Op::InsAllF { .. } | Op::RemAllF { .. }) || (armed && is_mutation(op)) }
+fn snap_ds<D: Dataset>(c: &Ctx, d: &D) -> Vec<Q4> where D::Error: std::fmt::Debug { sort4(d.quads().map(|q| ids4(c, &q.expect("reading the store"))).collect()) }
+fn snap_gr<G: Graph>(c: &Ctx, g: &G) -> Vec<Q4> where G::Error: std::fmt::Debug { sort4(g.triples().map(|t| (ids3(c, &t.expect("reading the store")), None)).collect()) }
+
+/// the source of a bulk mutation: the items as they are / the first `fa` items and then a failure
+macro_rules! plain_src { ($v:expr, $fa:expr) => { $v.into_iter().into_source() }; }
+macro_rules! fail_src { ($v:expr, $fa:expr) => { FSrc::new($v, $fa) }; }
+/// insert_all / remove_all on a dataset store, directly or through the mutable view named by `gs`, by every route
+macro_rules! ds_bulk { ($d:ident, $c:expr, $r:expr, $ins:expr, $gs:expr, $quads:expr, $items:expr, $how:expr, $fa:expr, $src:ident) => {{
+    let (c, ins, gs, items) = ($c, $ins, $gs, $items); let r: &mut Rng = &mut *$r;
+    match (gs.len(), $quads, $how % 3) {
+        (0, _, 0) => { let qs = $src!(quads_of(c, items, r), $fa); count(if ins { $d.insert_all(qs) } else { $d.remove_all(qs) }) }
+        (0, _, 1) => { let qs = $src!(quads_of(c, items, r), $fa); count(if ins { fwd_dinsert_all(&mut $d, qs) } else { fwd_dremove_all(&mut $d, qs) }) }
+        (0, _, _) => { let qs: Vec<Gspo<ST>> = quads_of(c, items, r).into_iter().map(|(t, g)| (g, t)).collect(); let qs = $src!(qs, $fa); count(if ins { $d.insert_all(qs) } else { $d.remove_all(qs) }) }
+        (1, false, h) => {
+            let g0 = name(c, &gs[0], r); let ts = triples_of(c, items, r);
+            match h {
+                0 => { let mut v = $d.graph_mut(g0); let ts = $src!(ts, $fa); count(if ins { v.insert_all(ts) } else { v.remove_all(ts) }) }
+                1 => { let mut v = DatasetGraph::new(std::mem::take(&mut $d), g0); let ts = $src!(ts, $fa); let x = count(if ins { v.insert_all(ts) } else { v.remove_all(ts) }); $d = v.unwrap().0; x }
+                _ => { let mut v = $d.graph_mut(g0); let ts = $src!(ts, $fa); count(if ins { fwd_ginsert_all(&mut v, ts) } else { fwd_gremove_all(&mut v, ts) }) }
+            }
+        }
+        (1, true, h) => {
+            let g0 = name(c, &gs[0], r); let qs = quads_of(c, items, r);
+            let mut v = $d.graph_mut(g0);
+            match h {
+                0 => { let mut x = v.as_dataset_mut(); let qs = $src!(qs, $fa); count(if ins { x.insert_all(qs) } else { x.remove_all(qs) }) }
+                1 => { let mut x = v.into_dataset(); let qs = $src!(qs, $fa); count(if ins { x.insert_all(qs) } else { x.remove_all(qs) }) }
+                _ => { let mut x = v.as_dataset_mut(); let qs = $src!(qs, $fa); count(if ins { fwd_dinsert_all(&mut x, qs) } else { fwd_dremove_all(&mut x, qs) }) }
+            }
+        }
+        (_, false, _) => {
+            let (g0, g1) = (name(c, &gs[0], r), name(c, &gs[1], r)); let ts = $src!(triples_of(c, items, r), $fa);
+            let mut v = $d.graph_mut(g0); let mut x = v.as_dataset_mut(); let mut v2 = DatasetGraph::new(&mut x, g1);
+            count(if ins { v2.insert_all(ts) } else { v2.remove_all(ts) })
+        }
+        (_, true, _) => {
+            let (g0, g1) = (name(c, &gs[0], r), name(c, &gs[1], r)); let qs = $src!(quads_of(c, items, r), $fa);
+            let mut v = $d.graph_mut(g0); let mut x = v.as_dataset_mut(); let mut v2 = DatasetGraph::new(&mut x, g1); let mut x2 = v2.as_dataset_mut();
+            count(if ins { x2.insert_all(qs) } else { x2.remove_all(qs) })
+        }
+    }
+}}; }
+/// the same on a graph store (every view goes through GraphAsDataset first)
+macro_rules! gr_bulk { ($g:ident, $c:expr, $r:expr, $ins:expr, $gs:expr, $quads:expr, $items:expr, $how:expr, $fa:expr, $src:ident) => {{
+    let (c, ins, gs, items) = ($c, $ins, $gs, $items); let r: &mut Rng = &mut *$r;
+    match (gs.len(), $quads, $how % 2) {
+        (1, false, 0) => { let ts = $src!(triples_of(c, items, r), $fa); count(if ins { $g.insert_all(ts) } else { $g.remove_all(ts) }) }
+        (1, false, _) => { let ts = $src!(triples_of(c, items, r), $fa); count(if ins { fwd_ginsert_all(&mut $g, ts) } else { fwd_gremove_all(&mut $g, ts) }) }
+        (1, true, 0) => { let qs = $src!(quads_of(c, items, r), $fa); let mut x = $g.as_dataset_mut(); count(if ins { x.insert_all(qs) } else { x.remove_all(qs) }) }
+        (1, true, _) => { let qs = $src!(quads_of(c, items, r), $fa); let mut x = std::mem::take(&mut $g).into_dataset(); let y = count(if ins { x.insert_all(qs) } else { x.remove_all(qs) }); $g = x.unwrap(); y }
+        (_, false, _) => { let g1 = name(c, &gs[1], r); let ts = $src!(triples_of(c, items, r), $fa); let mut x = $g.as_dataset_mut(); let mut v = DatasetGraph::new(&mut x, g1); count(if ins { v.insert_all(ts) } else { v.remove_all(ts) }) }
+        (_, true, _) => { let g1 = name(c, &gs[1], r); let qs = $src!(quads_of(c, items, r), $fa); let mut x = $g.as_dataset_mut(); let mut v = DatasetGraph::new(&mut x, g1); let mut x2 = v.as_dataset_mut(); count(if ins { x2.insert_all(qs) } else { x2.remove_all(qs) }) }
+    }
+}}; }
 
 /// the runner of a mixed history on one concrete dataset store type
 macro_rules! mk_ds_runner { ($fname:ident, $D:ty) => {
@@ -491,6 +605,7 @@ fn $fname(c: &Ctx, init: &[Q4], ops: &[Op], r: &mut Rng) -> Vec<Out> {
     for (t, g) in init { MutableDataset::insert(&mut d, c.term(t[0], r), c.term(t[1], r), c.term(t[2], r), g.map(|g| c.term(g, r))).unwrap(); }
     let mut outs = vec![];
     for op in ops {
+        let armed = d.armed();
         let o = match op {
             Op::GObs { path, hop, how, obs, dr } if path.is_empty() => {
                 // the view directly on the store, by every route
@@ -569,38 +684,11 @@ fn $fname(c: &Ctx, init: &[Q4], ops: &[Op], r: &mut Rng) -> Vec<Out> {
             }
             Op::InsAll { gs, quads, items, how } | Op::RemAll { gs, quads, items, how } => {
                 let ins = matches!(op, Op::InsAll { .. });
-                match (gs.len(), *quads, *how % 3) {
-                    (0, _, 0) => { let qs = quads_of(c, items, r).into_iter().into_source(); count(if ins { d.insert_all(qs) } else { d.remove_all(qs) }) }
-                    (0, _, 1) => { let qs = quads_of(c, items, r); count(if ins { fwd_dinsert_all(&mut d, qs) } else { fwd_dremove_all(&mut d, qs) }) }
-                    (0, _, _) => { let qs: Vec<Gspo<ST>> = quads_of(c, items, r).into_iter().map(|(t, g)| (g, t)).collect(); let qs = qs.into_iter().into_source(); count(if ins { d.insert_all(qs) } else { d.remove_all(qs) }) }
-                    (1, false, h) => {
-                        let g0 = name(c, &gs[0], r); let ts = triples_of(c, items, r);
-                        match h {
-                            0 => { let mut v = d.graph_mut(g0); let ts = ts.into_iter().into_source(); count(if ins { v.insert_all(ts) } else { v.remove_all(ts) }) }
-                            1 => { let mut v = DatasetGraph::new(std::mem::take(&mut d), g0); let ts = ts.into_iter().into_source(); let x = count(if ins { v.insert_all(ts) } else { v.remove_all(ts) }); d = v.unwrap().0; x }
-                            _ => { let mut v = d.graph_mut(g0); count(if ins { fwd_ginsert_all(&mut v, ts) } else { fwd_gremove_all(&mut v, ts) }) }
-                        }
-                    }
-                    (1, true, h) => {
-                        let g0 = name(c, &gs[0], r); let qs = quads_of(c, items, r);
-                        let mut v = d.graph_mut(g0);
-                        match h {
-                            0 => { let mut x = v.as_dataset_mut(); let qs = qs.into_iter().into_source(); count(if ins { x.insert_all(qs) } else { x.remove_all(qs) }) }
-                            1 => { let mut x = v.into_dataset(); let qs = qs.into_iter().into_source(); count(if ins { x.insert_all(qs) } else { x.remove_all(qs) }) }
-                            _ => { let mut x = v.as_dataset_mut(); count(if ins { fwd_dinsert_all(&mut x, qs) } else { fwd_dremove_all(&mut x, qs) }) }
-                        }
-                    }
-                    (_, false, _) => {
-                        let (g0, g1) = (name(c, &gs[0], r), name(c, &gs[1], r)); let ts = triples_of(c, items, r).into_iter().into_source();
-                        let mut v = d.graph_mut(g0); let mut x = v.as_dataset_mut(); let mut v2 = DatasetGraph::new(&mut x, g1);
-                        count(if ins { v2.insert_all(ts) } else { v2.remove_all(ts) })
-                    }
-                    (_, true, _) => {
-                        let (g0, g1) = (name(c, &gs[0], r), name(c, &gs[1], r)); let qs = quads_of(c, items, r).into_iter().into_source();
-                        let mut v = d.graph_mut(g0); let mut x = v.as_dataset_mut(); let mut v2 = DatasetGraph::new(&mut x, g1); let mut x2 = v2.as_dataset_mut();
-                        count(if ins { x2.insert_all(qs) } else { x2.remove_all(qs) })
-                    }
-                }
+                ds_bulk!(d, c, r, ins, gs, *quads, items, *how, 0usize, plain_src)
+            }
+            Op::InsAllF { gs, quads, items, fail_at, how } | Op::RemAllF { gs, quads, items, fail_at, how } => {
+                let ins = matches!(op, Op::InsAllF { .. });
+                ds_bulk!(d, c, r, ins, gs, *quads, items, *how, *fail_at, fail_src)
             }
             Op::RemMatching { g, m, how } | Op::RetMatching { g, m, how } => {
                 let rem = matches!(op, Op::RemMatching { .. });
@@ -615,8 +703,11 @@ fn $fname(c: &Ctx, init: &[Q4], ops: &[Op], r: &mut Rng) -> Vec<Out> {
             Op::DRemMatching(s, p, o, g) => { let (a, b, cc, gg) = (tm(c, s, r), tm(c, p, r), tm(c, o, r), gm(c, g, r)); if r.chance(1, 2) { cnt(d.remove_matching(a, b, cc, gg)) } else { cnt(fwd_dremove_matching(&mut d, a, b, cc, gg)) } }
             Op::DRetMatching(s, p, o, g) => { let (a, b, cc, gg) = (tm(c, s, r), tm(c, p, r), tm(c, o, r), gm(c, g, r)); if r.chance(1, 2) { unit(d.retain_matching(a, b, cc, gg)) } else { unit(fwd_dretain_matching(&mut d, a, b, cc, gg)) } }
             Op::SetFail(b) => { d.set_fail(*b); Out::Flag(*b) }
+            Op::SetBudget(b) => { d.set_budget(*b); Out::Flag(b.is_some()) }
             old => old_step::<$D>(c, &mut d, old, r),
         };
+        let o = canon(o);
+        let o = if wants_after(op, armed) { let saved = d.pause(); let st = snap_ds(c, &d); d.resume(saved); Out::After(Box::new(o), st) } else { o };
         outs.push(o);
     }
     outs
@@ -646,6 +737,7 @@ fn $fname(c: &Ctx, init: &[Q4], ops: &[Op], r: &mut Rng) -> Vec<Out> {
     for (t, _) in init { MutableGraph::insert(&mut g, c.term(t[0], r), c.term(t[1], r), c.term(t[2], r)).unwrap(); }
     let mut outs = vec![];
     for op in ops {
+        let armed = g.armed();
         let o = match op {
             Op::GObs { path, hop, how, obs, dr } => {
                 let (how, dr) = (*how, *dr);
@@ -699,14 +791,11 @@ fn $fname(c: &Ctx, init: &[Q4], ops: &[Op], r: &mut Rng) -> Vec<Out> {
             }
             Op::InsAll { gs, quads, items, how } | Op::RemAll { gs, quads, items, how } => {
                 let ins = matches!(op, Op::InsAll { .. });
-                match (gs.len(), *quads, *how % 2) {
-                    (1, false, 0) => { let ts = triples_of(c, items, r).into_iter().into_source(); count(if ins { g.insert_all(ts) } else { g.remove_all(ts) }) }
-                    (1, false, _) => { let ts = triples_of(c, items, r); count(if ins { fwd_ginsert_all(&mut g, ts) } else { fwd_gremove_all(&mut g, ts) }) }
-                    (1, true, 0) => { let qs = quads_of(c, items, r).into_iter().into_source(); let mut x = g.as_dataset_mut(); count(if ins { x.insert_all(qs) } else { x.remove_all(qs) }) }
-                    (1, true, _) => { let qs = quads_of(c, items, r).into_iter().into_source(); let mut x = std::mem::take(&mut g).into_dataset(); let y = count(if ins { x.insert_all(qs) } else { x.remove_all(qs) }); g = x.unwrap(); y }
-                    (_, false, _) => { let g1 = name(c, &gs[1], r); let ts = triples_of(c, items, r).into_iter().into_source(); let mut x = g.as_dataset_mut(); let mut v = DatasetGraph::new(&mut x, g1); count(if ins { v.insert_all(ts) } else { v.remove_all(ts) }) }
-                    (_, true, _) => { let g1 = name(c, &gs[1], r); let qs = quads_of(c, items, r).into_iter().into_source(); let mut x = g.as_dataset_mut(); let mut v = DatasetGraph::new(&mut x, g1); let mut x2 = v.as_dataset_mut(); count(if ins { x2.insert_all(qs) } else { x2.remove_all(qs) }) }
-                }
+                gr_bulk!(g, c, r, ins, gs, *quads, items, *how, 0usize, plain_src)
+            }
+            Op::InsAllF { gs, quads, items, fail_at, how } | Op::RemAllF { gs, quads, items, fail_at, how } => {
+                let ins = matches!(op, Op::InsAllF { .. });
+                gr_bulk!(g, c, r, ins, gs, *quads, items, *how, *fail_at, fail_src)
             }
             Op::RemMatching { m, how, .. } | Op::RetMatching { m, how, .. } => {
                 // on the store itself (a view over GraphAsDataset cannot offer them: its mutation error has no From<Error>)
@@ -718,8 +807,11 @@ fn $fname(c: &Ctx, init: &[Q4], ops: &[Op], r: &mut Rng) -> Vec<Out> {
                 }
             }
             Op::SetFail(b) => { g.set_fail(*b); Out::Flag(*b) }
+            Op::SetBudget(b) => { g.set_budget(*b); Out::Flag(b.is_some()) }
             other => unreachable!("not generated for graph stores: {other:?}"),
         };
+        let o = canon(o);
+        let o = if wants_after(op, armed) { let saved = g.pause(); let st = snap_gr(c, &g); g.resume(saved); Out::After(Box::new(o), st) } else { o };
         outs.push(o);
     }
     outs
@@ -744,6 +836,8 @@ fn t_ok(s: &MD, p: &MD, o: &MD, t: &T3) -> bool { md_ok(s, t[0]) && md_ok(p, t[1
 /// (kind, atoms, triple constituents) of each pool identifier
 fn pool_info(id: Tid) -> (u64, Vec<Tid>, Vec<Tid>) {
     match id {
+        17 | 20 => (2, vec![id], vec![]), 18 | 23 => (4, vec![id], vec![]), 24 => (0, vec![id], vec![]),
+        19 => (3, vec![1, 3, 20], vec![19]), 22 => (3, vec![1, 3, 23], vec![22]), 21 => (3, vec![1, 3, 23, 3, 5], vec![21, 22]),
         4 | 5 => (0, vec![id], vec![]), 1 | 2 | 3 | 12 | 13 => (1, vec![id], vec![]), 6 | 7 | 8 | 9 | 15 => (2, vec![id], vec![]), 11 => (4, vec![id], vec![]),
         10 => (3, vec![1, 3, 4], vec![10]), 16 => (3, vec![1, 3, 7], vec![16]), 14 => (3, vec![1, 3, 7, 3, 15], vec![14, 16]),
         _ => unreachable!(),
@@ -809,7 +903,7 @@ fn excludes_default(h: &Hop) -> bool { match h { Hop::Union => false, Hop::PUnio
 fn fails(op: &Op, graph_store: bool) -> bool {
     let skip = if graph_store { 0 } else { 1 };
     match op {
-        Op::DInsert(..) | Op::DRemove(..) | Op::VInsert(..) | Op::VRemove(..) | Op::Ins { .. } | Op::Rem { .. } | Op::InsAll { .. } | Op::RemAll { .. } | Op::SetFail(..) => false,
+        Op::DInsert(..) | Op::DRemove(..) | Op::VInsert(..) | Op::VRemove(..) | Op::Ins { .. } | Op::Rem { .. } | Op::InsAll { .. } | Op::RemAll { .. } | Op::InsAllF { .. } | Op::RemAllF { .. } | Op::SetFail(..) | Op::SetBudget(..) => false,
         Op::GObs { path, hop, .. } => !path.iter().chain(std::iter::once(hop)).skip(skip).any(excludes_default),
         Op::DObs { path, obs, .. } => {
             if path.is_empty() && !graph_store { return true }
@@ -819,19 +913,69 @@ fn fails(op: &Op, graph_store: bool) -> bool {
         _ => true,
     }
 }
-fn oracle_ds(init: &[Q4], ops: &[Op], bag: Kind, graph_store: bool) -> Vec<Out> {
-    let mut set: Vec<Q4> = vec![];
-    for q in init { o_insert(&mut set, bag, *q); }
-    let mut outs = vec![];
+/// the oracle's store: its content and the pending failure of its insert / remove (see Op::SetBudget)
+struct OStore { set: Vec<Q4>, bag: Kind, budget: Option<(usize, bool)> }
+impl OStore {
+    /// one elementary call reaching the store: Err = it fails (and changes nothing)
+    fn tick(&mut self) -> Result<(), ()> { match self.budget { None => Ok(()), Some((0, sticky)) => { if !sticky { self.budget = None } Err(()) } Some((k, sticky)) => { self.budget = Some((k - 1, sticky)); Ok(()) } } }
+    fn insert(&mut self, q: Q4) -> Out { match self.tick() { Ok(()) => Out::Flag(o_insert(&mut self.set, self.bag, q)), Err(()) => Out::SinkErr } }
+    fn remove(&mut self, q: Q4) -> Out { match self.tick() { Ok(()) => Out::Flag(o_remove(&mut self.set, self.bag, q)), Err(()) => Out::SinkErr } }
+    /// insert_all / remove_all: the items one by one, in the order of the source, until the first error of the sink;
+    /// `fail_at` = the source fails after that many items
+    fn bulk(&mut self, ins: bool, gs: &[Option<Tid>], quads: bool, items: &[Q4], fail_at: Option<usize>) -> Out {
+        let mut n = 0;
+        for (t, g) in &items[..fail_at.unwrap_or(items.len()).min(items.len())] {
+            let mut full = gs.to_vec(); if quads { full.push(*g) }
+            let x = match (lands(&full), ins) { (Some(g0), true) => self.insert((*t, g0)), (Some(g0), false) => self.remove((*t, g0)), (None, true) => Out::OnlyDefault, (None, false) => Out::Flag(false) };
+            match x { Out::Flag(b) => if b { n += 1 }, e => return e }
+        }
+        if fail_at.is_some() { Out::SrcErr } else { Out::Count(n) }
+    }
+    /// remove_matching / retain_matching (of a view or of the store): the victims are collected first, then removed one by
+    /// one. The ORDER in which the store enumerates them is not part of the property: when the store fails after k removals,
+    /// any k of the victims may be the ones that are gone, and the content observed after the call (`seen`) is accepted iff
+    /// it is the old content minus exactly k of the victims. Second component: the quads removed by a call that failed
+    fn remove_victims(&mut self, victim: impl Fn(&Q4) -> bool, ok: Out, seen: Option<&Out>) -> (Out, Option<Vec<Q4>>) {
+        let m = self.set.iter().filter(|q| victim(q)).count();
+        match self.budget {
+            Some((k, sticky)) if k < m => {
+                debug_assert!(self.bag == Kind::Set);
+                let before = self.set.clone();
+                let fallback: Vec<Q4> = { let mut left = k; before.iter().filter(|q| if victim(q) && left > 0 { left -= 1; false } else { true }).cloned().collect() };
+                let after = match seen {
+                    Some(Out::After(_, st)) if st.iter().all(|q| before.contains(q)) && { let mut u = st.clone(); u.dedup(); u.len() == st.len() }
+                        && before.iter().filter(|q| !st.contains(q)).all(|q| victim(q)) && before.len() - st.len() == k => st.clone(),
+                    _ => fallback,
+                };
+                let removed: Vec<Q4> = before.iter().filter(|q| !after.contains(q)).cloned().collect();
+                self.set = after; self.budget = if sticky { Some((0, true)) } else { None };
+                (Out::SinkErr, Some(removed))
+            }
+            b => {
+                if let Some((k, sticky)) = b { self.budget = Some((k - m, sticky)) }
+                self.set.retain(|q| !victim(q));
+                (match ok { Out::Count(_) => Out::Count(m as u64), o => o }, None)
+            }
+        }
+    }
+}
+/// second component: for each operation, the quads removed by a remove_matching / retain_matching that failed half-way
+fn oracle_ds(init: &[Q4], ops: &[Op], bag: Kind, graph_store: bool, observed: &[Out]) -> (Vec<Out>, Vec<Option<Vec<Q4>>>) {
+    let mut st = OStore { set: vec![], bag, budget: None };
+    for q in init { o_insert(&mut st.set, bag, *q); }
+    let mut outs = vec![]; let mut partial = vec![];
     let mut failing = false;
-    for op in ops {
-        if failing && fails(op, graph_store) { outs.push(Out::Err("MyErr(7)".into())); continue }
-        outs.push(match op {
+    for (k, op) in ops.iter().enumerate() {
+        let armed = st.budget.is_some();
+        let mut part = None;
+        let set = &st.set;
+        let o = if failing && fails(op, graph_store) { Out::Err("MyErr(7)".into()) } else { match op {
             Op::SetFail(b) => { failing = *b; Out::Flag(*b) }
-            Op::DInsert(q) => Out::Flag(o_insert(&mut set, bag, *q)),
-            Op::DRemove(q) => Out::Flag(o_remove(&mut set, bag, *q)),
-            Op::VInsert(g, t) => Out::Flag(o_insert(&mut set, bag, (*t, *g))),
-            Op::VRemove(g, t) => Out::Flag(o_remove(&mut set, bag, (*t, *g))),
+            Op::SetBudget(b) => { st.budget = *b; Out::Flag(b.is_some()) }
+            Op::DInsert(q) => st.insert(*q),
+            Op::DRemove(q) => st.remove(*q),
+            Op::VInsert(g, t) => st.insert((*t, *g)),
+            Op::VRemove(g, t) => st.remove((*t, *g)),
             Op::QUnion(s, p, o) => Out::Triples(sort3(set.iter().filter(|q| t_ok(s, p, o, &q.0)).map(|q| q.0).collect())),
             Op::QPUnion(g, s, p, o) => Out::Triples(sort3(set.iter().filter(|q| gd_ok(g, q.1) && t_ok(s, p, o, &q.0)).map(|q| q.0).collect())),
             Op::QGraph(g, s, p, o) => Out::Triples(sort3(set.iter().filter(|q| q.1 == *g && t_ok(s, p, o, &q.0)).map(|q| q.0).collect())),
@@ -842,35 +986,25 @@ fn oracle_ds(init: &[Q4], ops: &[Op], bag: Kind, graph_store: bool) -> Vec<Out> 
             Op::QUnionAll => Out::Triples(sort3(set.iter().map(|q| q.0).collect())),
             Op::QPUnionAll(g) => Out::Triples(sort3(set.iter().filter(|q| gd_ok(g, q.1)).map(|q| q.0).collect())),
             Op::QDirect(s, p, o, g) => Out::Quads(sort4(set.iter().filter(|q| gd_ok(g, q.1) && t_ok(s, p, o, &q.0)).cloned().collect())),
-            Op::VRemoveMatching(g, s, p, o) | Op::RemMatching { g, m: (s, p, o), .. } => { let n = set.iter().filter(|q| q.1 == *g && t_ok(s, p, o, &q.0)).count(); set.retain(|q| !(q.1 == *g && t_ok(s, p, o, &q.0))); Out::Count(n as u64) }
-            Op::VRetainMatching(g, s, p, o) | Op::RetMatching { g, m: (s, p, o), .. } => { set.retain(|q| q.1 != *g || t_ok(s, p, o, &q.0)); Out::Flag(true) }
+            Op::VRemoveMatching(g, s, p, o) | Op::RemMatching { g, m: (s, p, o), .. } => { let (x, pr) = st.remove_victims(|q| q.1 == *g && t_ok(s, p, o, &q.0), Out::Count(0), observed.get(k)); part = pr; x }
+            Op::VRetainMatching(g, s, p, o) | Op::RetMatching { g, m: (s, p, o), .. } => { let (x, pr) = st.remove_victims(|q| q.1 == *g && !t_ok(s, p, o, &q.0), Out::Flag(true), observed.get(k)); part = pr; x }
             Op::QUnionAtoms(k) => Out::Terms(atoms_oracle(set.iter().map(|q| q.0).collect(), *k)),
             Op::QGraphAtoms(g, k) => Out::Terms(atoms_oracle(set.iter().filter(|q| q.1 == *g).map(|q| q.0).collect(), *k)),
-            Op::GObs { path, hop, obs, .. } => gobs_oracle(&hop_triples(&path_quads(&set, path), hop), obs),
-            Op::DObs { path, obs, .. } => dobs_oracle(&path_quads(&set, path), obs),
-            Op::Ins { gs, t, .. } => match lands(gs) { Some(g) => Out::Flag(o_insert(&mut set, bag, (*t, g))), None => Out::OnlyDefault },
-            Op::Rem { gs, t, .. } => match lands(gs) { Some(g) => Out::Flag(o_remove(&mut set, bag, (*t, g))), None => Out::Flag(false) },
-            Op::InsAll { gs, quads, items, .. } => {
-                let mut n = 0; let mut stopped = false;
-                for (t, g) in items {
-                    let mut full = gs.clone(); if *quads { full.push(*g) }
-                    match lands(&full) { Some(g0) => if o_insert(&mut set, bag, (*t, g0)) { n += 1 }, None => { stopped = true; break } }
-                }
-                if stopped { Out::OnlyDefault } else { Out::Count(n) }
-            }
-            Op::RemAll { gs, quads, items, .. } => {
-                let mut n = 0;
-                for (t, g) in items {
-                    let mut full = gs.clone(); if *quads { full.push(*g) }
-                    if let Some(g0) = lands(&full) { if o_remove(&mut set, bag, (*t, g0)) { n += 1 } }
-                }
-                Out::Count(n)
-            }
-            Op::DRemMatching(s, p, o, g) => { let n = set.iter().filter(|q| gd_ok(g, q.1) && t_ok(s, p, o, &q.0)).count(); set.retain(|q| !(gd_ok(g, q.1) && t_ok(s, p, o, &q.0))); Out::Count(n as u64) }
-            Op::DRetMatching(s, p, o, g) => { set.retain(|q| gd_ok(g, q.1) && t_ok(s, p, o, &q.0)); Out::Flag(true) }
-        });
+            Op::GObs { path, hop, obs, .. } => gobs_oracle(&hop_triples(&path_quads(set, path), hop), obs),
+            Op::DObs { path, obs, .. } => dobs_oracle(&path_quads(set, path), obs),
+            Op::Ins { gs, t, .. } => match lands(gs) { Some(g) => st.insert((*t, g)), None => Out::OnlyDefault },
+            Op::Rem { gs, t, .. } => match lands(gs) { Some(g) => st.remove((*t, g)), None => Out::Flag(false) },
+            Op::InsAll { gs, quads, items, .. } => st.bulk(true, gs, *quads, items, None),
+            Op::RemAll { gs, quads, items, .. } => st.bulk(false, gs, *quads, items, None),
+            Op::InsAllF { gs, quads, items, fail_at, .. } => st.bulk(true, gs, *quads, items, Some(*fail_at)),
+            Op::RemAllF { gs, quads, items, fail_at, .. } => st.bulk(false, gs, *quads, items, Some(*fail_at)),
+            Op::DRemMatching(s, p, o, g) => { let (x, pr) = st.remove_victims(|q| gd_ok(g, q.1) && t_ok(s, p, o, &q.0), Out::Count(0), observed.get(k)); part = pr; x }
+            Op::DRetMatching(s, p, o, g) => { let (x, pr) = st.remove_victims(|q| !(gd_ok(g, q.1) && t_ok(s, p, o, &q.0)), Out::Flag(true), observed.get(k)); part = pr; x }
+        } };
+        outs.push(if wants_after(op, armed) { Out::After(Box::new(o), sort4(st.set.clone())) } else { o });
+        partial.push(part);
     }
-    outs
+    (outs, partial)
 }
 /// the plain-set oracle; second component: for each BULK operation, the sequence of single removals / insertions
 /// (with their flags) it must be equivalent to -- that is what the Coq model is given for it
@@ -897,12 +1031,45 @@ fn oracle_gad(init: &[T3], ops: &[GOp]) -> (Vec<GOut>, Vec<Vec<(GOp, GOut)>>) {
 }
 
 // ---------- generation ----------
-const NT: u64 = 16; // pool size
+const NT: u64 = 24; // pool size
+const NT_CLASSIC: u64 = 16; // the terms of the shared pool; 17.. are the ones added for GENERALIZED datasets
+/// the shared pool plus terms that are meant to occur (almost) only as graph NAMES, or nested in one:
+/// 17 a literal, 18 a variable, 19 a quoted triple whose object is the literal 20, 21 a quoted triple whose subject is the
+/// quoted triple 22 = << a p ?w >> (23 = ?w) and whose object is _:y, 24 a blank node
+fn c11_pool() -> Vec<Vec<ST>> {
+    let mut p = small_pool();
+    let (a, pp) = (iri("http://example.org/a"), iri("http://example.org/p"));
+    p.push(vec![lit_dt("only a graph name", &format!("{XSD}string"))]);
+    p.push(vec![var("g")]);
+    p.push(vec![triple(a.clone(), pp.clone(), lit_dt("nested in a graph name", &format!("{XSD}string")))]);
+    p.push(vec![lit_dt("nested in a graph name", &format!("{XSD}string"))]);
+    p.push(vec![triple(triple(a.clone(), pp.clone(), var("w")), pp.clone(), bnode("y"))]);
+    p.push(vec![triple(a.clone(), pp.clone(), var("w"))]);
+    p.push(vec![var("w")]);
+    p.push(vec![bnode("gb")]);
+    p
+}
+thread_local! {
+    /// is the case being generated about a GENERALIZED dataset (graph names of every kind of term)?
+    static GENERALIZED: std::cell::Cell<bool> = std::cell::Cell::new(false);
+}
+fn generalized() -> bool { GENERALIZED.with(|g| g.get()) }
+/// a graph name that is a literal, a variable, a quoted triple (possibly nested), or a blank node / IRI / literal / variable /
+/// quoted triple that also occurs inside triples
+const GEN_NAMES: [Option<Tid>; 12] = [Some(17), Some(17), Some(18), Some(18), Some(19), Some(21), Some(24), Some(7), Some(11), Some(10), Some(14), Some(22)];
 fn gen_tid(r: &mut Rng) -> Tid { // skewed towards few terms so that collisions are common
-    if r.chance(3, 4) { 1 + r.below(6) as u64 } else { 1 + r.below(NT as usize) as u64 }
+    if generalized() && r.chance(1, 12) { return 17 + r.below(8) as u64 }
+    if r.chance(3, 4) { 1 + r.below(6) as u64 } else { 1 + r.below(NT_CLASSIC as usize) as u64 }
 }
 fn gen_t3(r: &mut Rng) -> T3 { [gen_tid(r), *r.pick(&[3, 3, 1, 2, 12]), gen_tid(r)] }
-fn gen_g(r: &mut Rng) -> Option<Tid> { *r.pick(&[None, None, Some(12), Some(12), Some(4), Some(13), Some(1)]) }
+fn gen_g(r: &mut Rng) -> Option<Tid> {
+    if generalized() && r.chance(2, 5) { return *r.pick(&GEN_NAMES) }
+    *r.pick(&[None, None, Some(12), Some(12), Some(4), Some(13), Some(1)])
+}
+/// a name for a graph of a graph-as-dataset view (only the default one is inhabited)
+fn gen_g_nested(r: &mut Rng) -> Option<Tid> { if generalized() && r.chance(1, 3) { *r.pick(&GEN_NAMES) } else { *r.pick(&[Some(12), Some(4), Some(1)]) } }
+/// the graph names of the first alphabet's graph-as-dataset histories
+fn gen_g_gad(r: &mut Rng, classic: &[Option<Tid>]) -> Option<Tid> { if generalized() && r.chance(1, 4) { *r.pick(&GEN_NAMES) } else { *r.pick(classic) } }
 fn gen_md(r: &mut Rng) -> MD {
     match r.below(10) { 0..=4 => MD::Any, 5..=6 => MD::OneOf(vec![gen_tid(r)]), 7 => MD::OneOf(vec![gen_tid(r), gen_tid(r)]), 8 => MD::NotOneOf(vec![gen_tid(r)]), _ => MD::OneOf(vec![]) }
 }
@@ -922,11 +1089,11 @@ fn gen_op(r: &mut Rng) -> Op {
 }
 fn gen_gop(r: &mut Rng) -> GOp {
     match r.below(14) {
-        12 => GOp::RemoveAll((0..r.range(1, 5)).map(|_| (gen_t3(r), *r.pick(&[None, None, Some(12), Some(4), Some(13)]))).collect()),
+        12 => GOp::RemoveAll((0..r.range(1, 5)).map(|_| (gen_t3(r), gen_g_gad(r, &[None, None, Some(12), Some(4), Some(13)]))).collect()),
         13 => GOp::InsertAll((0..r.range(1, 5)).map(|_| gen_t3(r)).collect()),
-        0..=2 => GOp::Insert((gen_t3(r), *r.pick(&[None, None, None, Some(12), Some(4)]))),
-        3..=5 => GOp::Remove((gen_t3(r), *r.pick(&[None, None, None, Some(12), Some(4)]))),
-        6 => GOp::Contains((gen_t3(r), *r.pick(&[None, None, Some(12)]))),
+        0..=2 => GOp::Insert((gen_t3(r), gen_g_gad(r, &[None, None, None, Some(12), Some(4)]))),
+        3..=5 => GOp::Remove((gen_t3(r), gen_g_gad(r, &[None, None, None, Some(12), Some(4)]))),
+        6 => GOp::Contains((gen_t3(r), gen_g_gad(r, &[None, None, Some(12)]))),
         7..=8 => GOp::Query(gen_md(r), gen_md(r), gen_md(r), gen_gd(r)), 9 => GOp::All,
         10 => GOp::DirectInsert(gen_t3(r)), _ => GOp::DirectRemove(gen_t3(r)),
     }
@@ -966,18 +1133,33 @@ fn gen_dobs(r: &mut Rng, known: &[Q4], nested: bool) -> DObs {
     }
 }
 fn gen_gs(r: &mut Rng, graph_store: bool, n: usize) -> Vec<Option<Tid>> {
-    (0..n).map(|k| if k == 0 { if graph_store { None } else { gen_g(r) } } else if r.chance(2, 3) { None } else { *r.pick(&[Some(12), Some(4), Some(1)]) }).collect()
+    (0..n).map(|k| if k == 0 { if graph_store { None } else { gen_g(r) } } else if r.chance(2, 3) { None } else { gen_g_nested(r) }).collect()
 }
 fn gen_items(r: &mut Rng, known: &[Q4], quads: bool, nested: bool) -> Vec<Q4> {
     (0..r.range(1, 5)).map(|_| {
         let t = if !known.is_empty() && r.chance(1, 2) { r.pick(known).0 } else { gen_t3(r) };
-        (t, if !quads { None } else if nested { if r.chance(4, 5) { None } else { Some(12) } } else { gen_g(r) })
+        (t, if !quads { None } else if nested { if r.chance(4, 5) { None } else if generalized() { gen_g_nested(r) } else { Some(12) } } else { gen_g(r) })
     }).collect()
 }
 /// one operation of the widened alphabet; `known` approximates what has been inserted so far
 fn gen_xop(r: &mut Rng, known: &mut Vec<Q4>, graph_store: bool) -> Op {
     let (how, dr) = (r.below(256) as u8, r.below(5) as u8);
-    match r.below(24) {
+    match r.below(27) {
+        24..=26 => {
+            // a bulk mutation through a view (or on the store) whose source fails: the items re-yield statements that are already
+            // there (in the graph addressed, in another graph) more often than not
+            let ins = r.chance(3, 5);
+            let (n, quads) = if graph_store { *r.pick(&[(1, false), (1, true), (1, true), (2, false), (2, true)]) } else { *r.pick(&[(0, true), (1, false), (1, false), (1, false), (1, true), (1, true), (2, false), (2, true)]) };
+            let mut gs = gen_gs(r, graph_store, n);
+            // aim at a graph that is known to hold something
+            if !graph_store && n > 0 && !known.is_empty() && r.chance(2, 3) { gs[0] = r.pick(known).1 }
+            let mut items = gen_items(r, known, quads, n > 0);
+            let here: Vec<Q4> = known.iter().filter(|q| n == 0 || q.1 == gs[0]).cloned().collect();
+            if !here.is_empty() { for it in items.iter_mut() { if r.chance(1, 2) { let q = *r.pick(&here); *it = (q.0, if n == 0 { q.1 } else { it.1 }) } } }
+            let fail_at = r.below(items.len() + 1);
+            if ins { for (t, g) in &items[..fail_at] { let mut full = gs.clone(); if quads { full.push(*g) } match lands(&full) { Some(g0) => known.push((*t, g0)), None => break } } }
+            if ins { Op::InsAllF { gs, quads, items, fail_at, how } } else { Op::RemAllF { gs, quads, items, fail_at, how } }
+        }
         0..=5 => { let path = gen_path(r, graph_store); let hop = if path.is_empty() && !graph_store { gen_hop(r) } else { gen_hop_nested(r) }; Op::GObs { path, hop, how, obs: gen_gobs(r, known), dr } }
         6..=9 => { let path = gen_path(r, graph_store); let nested = graph_store || !path.is_empty(); Op::DObs { path, how, obs: gen_dobs(r, known, nested), dr } }
         10..=14 => {
@@ -1009,12 +1191,43 @@ fn gen_xop(r: &mut Rng, known: &mut Vec<Q4>, graph_store: bool) -> Op {
         _ => if graph_store { Op::DObs { path: vec![], how, obs: DObs::All, dr } } else if r.chance(2, 3) { Op::DRemMatching(gen_md(r), gen_md(r), gen_md(r), gen_gd(r)) } else { Op::DRetMatching(gen_md(r), MD::Any, gen_md(r), if r.chance(1, 2) { GD::Any } else { gen_gd(r) }) },
     }
 }
+/// arm (mostly) or disarm the failure of the store's insert / remove
+fn gen_budget(r: &mut Rng) -> Op { if r.chance(1, 6) { Op::SetBudget(None) } else { Op::SetBudget(Some((r.below(4), r.chance(1, 4)))) } }
+/// the operation that follows the arming of the store: a BULK mutation through a view (or on the store) that makes several calls,
+/// aimed at a graph that is known to hold something, so that the store fails half-way
+fn gen_after_budget(r: &mut Rng, known: &mut Vec<Q4>, graph_store: bool) -> Op {
+    let how = r.below(256) as u8;
+    let g = if graph_store { None } else if !known.is_empty() && r.chance(3, 4) { r.pick(known).1 } else { gen_g(r) };
+    let wide = |r: &mut Rng| if r.chance(2, 3) { MD::Any } else { gen_md(r) };
+    match r.below(if graph_store { 6 } else { 9 }) {
+        0 | 1 => Op::RemMatching { g, m: (wide(r), wide(r), wide(r)), how },
+        2 => Op::RetMatching { g, m: (gen_md(r), wide(r), gen_md(r)), how },
+        3 | 4 => {
+            let (n, quads) = if graph_store { *r.pick(&[(1, false), (1, true), (2, false), (2, true)]) } else { *r.pick(&[(0, true), (1, false), (1, false), (1, true), (2, false), (2, true)]) };
+            let mut gs = gen_gs(r, graph_store, n); if n > 0 && !graph_store { gs[0] = g }
+            let items: Vec<Q4> = (0..r.range(2, 5)).map(|_| (if !known.is_empty() && r.chance(1, 2) { r.pick(known).0 } else { gen_t3(r) }, if quads && n == 0 { gen_g(r) } else { None })).collect();
+            // NB: `known` over-approximates (the store may fail before the last item)
+            for (t, gi) in &items { let mut full = gs.clone(); if quads { full.push(*gi) } if let Some(g0) = lands(&full) { known.push((*t, g0)) } }
+            if r.chance(1, 4) { let fail_at = r.below(items.len() + 1); Op::InsAllF { gs, quads, items, fail_at, how } } else { Op::InsAll { gs, quads, items, how } }
+        }
+        5 => {
+            let (n, quads) = if graph_store { *r.pick(&[(1, false), (1, true), (2, false)]) } else { *r.pick(&[(0, true), (1, false), (1, false), (1, true), (2, false)]) };
+            let mut gs = gen_gs(r, graph_store, n); if n > 0 && !graph_store { gs[0] = g }
+            let here: Vec<Q4> = known.iter().filter(|q| n == 0 || q.1 == g).cloned().collect();
+            let items: Vec<Q4> = (0..r.range(2, 5)).map(|_| if !here.is_empty() && r.chance(3, 4) { let q = *r.pick(&here); (q.0, if quads && n == 0 { q.1 } else { None }) } else { (gen_t3(r), None) }).collect();
+            if r.chance(1, 4) { let fail_at = r.below(items.len() + 1); Op::RemAllF { gs, quads, items, fail_at, how } } else { Op::RemAll { gs, quads, items, how } }
+        }
+        6 => Op::VRemoveMatching(g, wide(r), wide(r), wide(r)),
+        7 => Op::DRemMatching(wide(r), wide(r), wide(r), if r.chance(1, 2) { GD::Any } else { gen_gd(r) }),
+        _ => Op::DRetMatching(gen_md(r), MD::Any, gen_md(r), if r.chance(1, 2) { GD::Any } else { gen_gd(r) }),
+    }
+}
 /// did this operation go through a view (and not straight to the store)?
 fn through_view(op: &Op, graph_store: bool) -> bool {
     match op {
         Op::VInsert(..) | Op::VRemove(..) | Op::VRemoveMatching(..) | Op::VRetainMatching(..) => true,
         Op::Ins { gs, how, .. } | Op::Rem { gs, how, .. } => gs.len() > 1 || if graph_store { how % 4 == 3 } else { how % 8 >= 3 },
-        Op::InsAll { gs, quads, .. } | Op::RemAll { gs, quads, .. } => if graph_store { gs.len() > 1 || *quads } else { !gs.is_empty() },
+        Op::InsAll { gs, quads, .. } | Op::RemAll { gs, quads, .. } | Op::InsAllF { gs, quads, .. } | Op::RemAllF { gs, quads, .. } => if graph_store { gs.len() > 1 || *quads } else { !gs.is_empty() },
         Op::RemMatching { .. } | Op::RetMatching { .. } => !graph_store,
         _ => false,
     }
@@ -1079,7 +1292,7 @@ fn c_xout(o: &Out) -> String {
     match o {
         Out::Has(b) => format!("XO (OFlag {})", coq_bool(*b)),
         Out::OnlyDefault => "XOnlyDefault".into(),
-        Out::Err(_) => "XOnlyDefault; XOnlyDefault".into(), // an error never matches the model: length differs
+        Out::Err(_) | Out::SrcErr | Out::SinkErr | Out::After(..) => "XOnlyDefault; XOnlyDefault".into(), // an error never matches the model: length differs
         o => format!("XO ({})", c_out(o)),
     }
 }
@@ -1090,8 +1303,60 @@ fn c_out(o: &Out) -> String {
         Out::Quads(l) => format!("OQuads {}", coq_list(l.iter().map(c_q4))),
         Out::Count(n) => format!("OCount {n}"), Out::Terms(l) => format!("OTerms {}", coq_list(l.iter().map(|x| x.to_string()))),
         Out::Has(_) | Out::OnlyDefault => unreachable!(),
-        Out::Err(_) => "OFlag true; OFlag false".into(), // an error never matches the model: length differs
+        Out::Err(_) | Out::SrcErr | Out::SinkErr | Out::After(..) => "OFlag true; OFlag false".into(), // an error never matches the model: length differs
     }
+}
+/// the matching removals as the model's xop (both alphabets): what EPartial is given
+fn c_matching_xop(o: &Op) -> Option<String> {
+    match o {
+        Op::VRemoveMatching(g, s, p, ob) | Op::RemMatching { g, m: (s, p, ob), .. } => Some(format!("(XRemMatching {} {} {} {})", c_g(g), c_md(s), c_md(p), c_md(ob))),
+        Op::VRetainMatching(g, s, p, ob) | Op::RetMatching { g, m: (s, p, ob), .. } => Some(format!("(XRetMatching {} {} {} {})", c_g(g), c_md(s), c_md(p), c_md(ob))),
+        Op::DRemMatching(s, p, ob, g) => Some(format!("(XDRemMatching {} {} {} {})", c_md(s), c_md(p), c_md(ob), c_gd(g))),
+        Op::DRetMatching(s, p, ob, g) => Some(format!("(XDRetMatching {} {} {} {})", c_md(s), c_md(p), c_md(ob), c_gd(g))),
+        _ => None,
+    }
+}
+/// an operation of a history with error paths (ModelErr.v); `removed` = what a matching removal that failed half-way took out
+fn c_eop(o: &Op, removed: &Option<Vec<Q4>>) -> String {
+    match (o, removed) {
+        (Op::InsAllF { gs, quads, items, fail_at, .. }, _) => format!("EInsAllF {} {fail_at}", c_items(gs, *quads, items)),
+        (Op::RemAllF { gs, quads, items, fail_at, .. }, _) => format!("ERemAllF {} {fail_at}", c_items(gs, *quads, items)),
+        (Op::SetBudget(b), _) => format!("ESetBudget {}", coq_opt(b.map(|(k, sticky)| format!("({k}, {})", coq_bool(sticky))))),
+        (o, Some(rm)) => format!("EPartial {} {}", c_matching_xop(o).expect("only matching removals fail half-way"), coq_list(rm.iter().map(c_q4))),
+        (o, None) => format!("EH ({})", c_hop_op(o)),
+    }
+}
+fn c_eout(o: &Out) -> String {
+    match o {
+        Out::SrcErr => "ESrcErr".into(), Out::SinkErr => "ESinkErr".into(),
+        Out::Err(_) => "EX XOnlyDefault; EX XOnlyDefault".into(), // an error never matches the model: length differs
+        Out::After(..) => unreachable!("split by the caller"),
+        o => format!("EX ({})", c_xout(o)),
+    }
+}
+/// the Coq case of a history: `xcase_ok` (Model.v) when it has no error path, `ecase_ok` (ModelErr.v) otherwise; an answer that
+/// comes with the content of the store is given to the model as the operation followed by quads() on the store
+fn c_case(bag: Kind, init: &[Q4], ops: &[Op], outs: &[Out], exp: &[Out], partial: &[Option<Vec<Q4>>]) -> String {
+    // the model has no failing ENUMERATIONS: the operations that are EXPECTED to report that injected error (they leave the
+    // state alone) and the switches are left out of the Coq case; an unexpected error stays in and disagrees
+    let injected = |o: &Out| match o { Out::After(x, _) => **x == Out::Err("MyErr(7)".into()), x => *x == Out::Err("MyErr(7)".into()) };
+    let keep: Vec<usize> = (0..ops.len()).filter(|k| !matches!(ops[*k], Op::SetFail(..)) && !injected(&exp[*k])).collect();
+    let sk = match bag { Kind::Set => "SSet", Kind::BagAll => "SBagAll", Kind::BagOne => "SBagOne" };
+    let errs = ops.iter().any(|o| matches!(o, Op::InsAllF { .. } | Op::RemAllF { .. } | Op::SetBudget(..)));
+    if !errs {
+        return format!("xcase_ok {sk} the_pool {} {} {}", coq_list(init.iter().map(c_q4)), coq_list(keep.iter().map(|k| c_hop_op(&ops[*k]))), coq_list(keep.iter().map(|k| c_xout(&outs[*k]))));
+    }
+    let (mut cops, mut couts) = (vec![], vec![]);
+    for k in keep {
+        // a matching removal is printed as EPartial iff the ORACLE says it failed half-way
+        let half = if matches!(&exp[k], Out::After(x, _) if **x == Out::SinkErr) { &partial[k] } else { &None };
+        cops.push(c_eop(&ops[k], half));
+        match &outs[k] {
+            Out::After(x, st) => { couts.push(c_eout(x)); cops.push("EH (HNew (XDObs [] DOAll))".into()); couts.push(format!("EX (XO (OQuads {}))", coq_list(st.iter().map(c_q4)))); }
+            x => couts.push(c_eout(x)),
+        }
+    }
+    format!("ecase_ok {sk} the_pool {} {} {}", coq_list(init.iter().map(c_q4)), coq_list(cops), coq_list(couts))
 }
 fn c_gop(o: &GOp) -> String {
     match o {
@@ -1129,20 +1394,45 @@ fn bump_routes(sum: &mut Summary, o: &Op) {
         }
         Op::Ins { gs, .. } | Op::Rem { gs, .. } => { sum.bump(&format!("mutation depth:{} {}", gs.len(), if lands(gs).is_some() { "lands" } else { "named graph of a graph view" })); }
         Op::InsAll { gs, quads, .. } | Op::RemAll { gs, quads, .. } => { sum.bump(&format!("bulk depth:{} {}", gs.len(), if *quads { "quads" } else { "triples" })); }
+        Op::InsAllF { gs, quads, items, fail_at, .. } | Op::RemAllF { gs, quads, items, fail_at, .. } => {
+            sum.bump(&format!("failing source, bulk depth:{} {}", gs.len(), if *quads { "quads" } else { "triples" }));
+            sum.bump(&format!("failing source: fails {}", if *fail_at == 0 { "at once" } else if *fail_at >= items.len() { "after the last item" } else { "half-way" }));
+        }
         _ => {}
+    }
+}
+/// the answer itself, without the content of the store that may come with it
+fn plain(o: &Out) -> &Out { match o { Out::After(x, _) => x, x => x } }
+fn after_note(exp: Option<&Out>, partial: Option<&Option<Vec<Q4>>>) -> String {
+    match (exp, partial) {
+        (Some(Out::After(..)), Some(Some(_))) => " (answer, then the content of the store right after the call; the store failed half-way: ANY choice of that many victims is accepted, the one shown is an example)".into(),
+        (Some(Out::After(..)), _) => " (answer, then the content of the store right after the call: it must be what the elementary operations up to the failure produce)".into(),
+        _ => String::new(),
+    }
+}
+/// histogram of the error paths that were really taken
+fn bump_errors(sum: &mut Summary, ops: &[Op], exp: &[Out]) {
+    for (o, x) in ops.iter().zip(exp.iter()) {
+        if let Out::After(x, _) = x {
+            let what = match **x { Out::SrcErr => "the source failed", Out::SinkErr => "the store's insert/remove failed", Out::OnlyDefault => "a named graph of a graph view was addressed", Out::Err(_) => "the store's enumeration failed", _ => "no error" };
+            sum.bump(&format!("error path:{}: {what}", op_name(o)));
+        }
     }
 }
 fn op_name(o: &Op) -> String { format!("{o:?}").split(|ch| ch == '(' || ch == ' ').next().unwrap().to_string() }
 
 fn main() {
     let a = parse_args();
-    let ctx = Ctx { pool: small_pool(), notes: Default::default() };
+    let ctx = Ctx { pool: c11_pool(), notes: Default::default() };
     assert_eq!(ctx.pool.len() as u64, NT);
     let mut sum = Summary::default();
     sum.rule = "case = (store type, initial content, history of 1..40 mixed ops applied alternately through the store and through views, in two alphabets: the first one and the widened one \
 (views of views, every provided method of Graph/Dataset/MutableGraph/MutableDataset through every view type and route, bulk mutations, iterator consumption modes)); case index mod 4: 0 and 2 = a dataset store \
 (11 types: the in-memory ones, Hash/BTreeSet of Spog and Gspo, two Vec-backed bags, one whose enumerations fail on demand), 1 = a graph-as-dataset history in the first alphabet, \
 3 = a graph store (8 types, one a bag, one failing on demand) driven through GraphAsDataset in the widened alphabet; \
+every other case of each kind is about a GENERALIZED dataset (graph names that are literals, variables, quoted triples, with terms occurring nowhere else, in every matcher / view / mutation); \
+error paths: insert_all / remove_all through every mutable view from a source that fails after k items (re-yielding quads already present in that graph or another one), and on the flaky stores \
+an insert / remove that fails at the (k+1)-th call (once or for ever) under every mutation incl. remove_matching / retain_matching through views: the answer is compared together with the content of the store right after the call; \
 non-trivial = at least one mutation through a view that changes the store AND at least one non-empty query result; distinct = distinct (store, init, ops) after printing".into();
     let mut cases: Vec<(usize, String)> = vec![];
     let mut seen = HashSet::new();
@@ -1152,17 +1442,22 @@ non-trivial = at least one mutation through a view that changes the store AND at
         let mut r = base.fork(idx as u64);
         let nops = r.range(1, 40);
         let ninit = r.below(9);
+        // every other case of each kind is about a GENERALIZED dataset: graph names that are literals, variables, quoted triples
+        GENERALIZED.with(|g| g.set(if idx % 2 == 0 { idx % 4 == 2 } else { (idx / 4) % 2 == 1 }));
+        sum.bump(if generalized() { "graph names:of every kind of term (generalized dataset)" } else { "graph names:IRIs and blank nodes" });
         if idx % 2 == 0 {
-            let store = r.below(11);
+            let store = match r.below(13) { x if x < 11 => x, _ => 10 };
             let bag = match store { 8 => Kind::BagAll, 9 => Kind::BagOne, _ => Kind::Set };
             let mut init: Vec<Q4> = (0..ninit).map(|_| (gen_t3(&mut r), gen_g(&mut r))).collect();
             // triples shared by several graphs (a union view then shows them several times)
             for k in 0..init.len() { if r.chance(1, 3) { let t = init[k].0; init.push((t, gen_g(&mut r))); } }
             // state-aware generation: `known` approximates the quads inserted so far (removals ignored)
             let mut known: Vec<Q4> = init.clone();
-            let mut fail_now = false;
+            let mut fail_now = false; let mut just_armed = false;
             let ops: Vec<Op> = (0..nops).map(|_| {
                 if store == 10 && r.chance(1, if fail_now { 4 } else { 8 }) { fail_now = !fail_now; return Op::SetFail(fail_now) }
+                if store == 10 && just_armed { just_armed = false; if r.chance(3, 4) { return gen_after_budget(&mut r, &mut known, false) } }
+                if store == 10 && r.chance(1, 5) { let o = gen_budget(&mut r); just_armed = matches!(o, Op::SetBudget(Some(_))); return o }
                 if r.chance(1, 2) { return gen_xop(&mut r, &mut known, false) }
                 if !known.is_empty() && r.chance(1, 6) {
                     let (t, g) = *r.pick(&known);
@@ -1195,32 +1490,32 @@ non-trivial = at least one mutation through a view that changes the store AND at
                 9 => run_ds_vecg(&ctx, &init, &ops, &mut r),
                 _ => run_ds_flaky(&ctx, &init, &ops, &mut r),
             };
-            let exp = oracle_ds(&init, &ops, bag, false);
+            let (exp, partial) = oracle_ds(&init, &ops, bag, false, &outs);
             let text = format!("{} init={:?} ops={:?}", DS_STORES[store], init, ops);
             if a.only.is_some() { println!("CASE {idx}: {text}\nIMPL   {outs:?}\nORACLE {exp:?}"); }
             if outs != exp {
                 let k = outs.iter().zip(exp.iter()).position(|(x, y)| x != y).unwrap_or(0);
-                sum.oracle_failures.push((idx.to_string(), format!("store={} op#{k} {:?}: implementation returned {:?}, a plain {} store gives {:?}; full case: {text}", DS_STORES[store], ops.get(k), outs.get(k), format!("{bag:?}"), exp.get(k))));
+                sum.oracle_failures.push((idx.to_string(), format!("store={} op#{k} {:?}: implementation returned {:?}, a plain {} store gives {:?}{}; full case: {text}", DS_STORES[store], ops.get(k), outs.get(k), format!("{bag:?}"), exp.get(k), after_note(exp.get(k), partial.get(k)))));
             }
-            let changed = ops.iter().zip(outs.iter()).any(|(o, x)| through_view(o, false) && (*x == Out::Flag(true) && !matches!(o, Op::VRetainMatching(..) | Op::RetMatching { .. }) || matches!(x, Out::Count(n) if *n > 0)));
+            let changed = ops.iter().zip(outs.iter()).any(|(o, x)| { let x = plain(x); through_view(o, false) && (*x == Out::Flag(true) && !matches!(o, Op::VRetainMatching(..) | Op::RetMatching { .. }) || matches!(x, Out::Count(n) if *n > 0)) });
             let nonempty = outs.iter().any(|x| matches!(x, Out::Triples(l) if !l.is_empty()) || matches!(x, Out::Quads(l) if !l.is_empty()));
             if seen.insert(text.clone()) && changed && nonempty { sum.distinct_nontrivial += 1; }
             sum.bump(&format!("store:{}", DS_STORES[store]));
             for o in &ops { sum.bump(&format!("op:{}", op_name(o))); bump_routes(&mut sum, o); }
+            bump_errors(&mut sum, &ops, &exp);
             if sum.samples.len() < 3 { sum.samples.push(format!("case {idx}: {text} => {outs:?}")); }
-            // the model has no failing stores: the operations that are EXPECTED to report the injected error (they leave the
-            // state alone) and the switches are left out of the Coq case; an unexpected error stays in and disagrees
-            let keep: Vec<usize> = (0..ops.len()).filter(|k| !matches!(ops[*k], Op::SetFail(..)) && exp[*k] != Out::Err("MyErr(7)".into())).collect();
-            cases.push((idx, format!("xcase_ok {} the_pool {} {} {}", match bag { Kind::Set => "SSet", Kind::BagAll => "SBagAll", Kind::BagOne => "SBagOne" }, coq_list(init.iter().map(c_q4)), coq_list(keep.iter().map(|k| c_hop_op(&ops[*k]))), coq_list(keep.iter().map(|k| c_xout(&outs[*k]))))));
+            cases.push((idx, c_case(bag, &init, &ops, &outs, &exp, &partial)));
         } else if idx % 4 == 3 {
             // a graph store behind GraphAsDataset, widened alphabet: the state is the dataset whose default graph is the store
             let store = r.below(8);
             let bag = if store == 6 { Kind::BagAll } else { Kind::Set };
             let init: Vec<Q4> = (0..ninit).map(|_| (gen_t3(&mut r), None)).collect();
             let mut known: Vec<Q4> = init.clone();
-            let mut fail_now = false;
+            let mut fail_now = false; let mut just_armed = false;
             let ops: Vec<Op> = (0..nops).map(|_| {
                 if store == 7 && r.chance(1, if fail_now { 4 } else { 8 }) { fail_now = !fail_now; return Op::SetFail(fail_now) }
+                if store == 7 && just_armed { just_armed = false; if r.chance(3, 4) { return gen_after_budget(&mut r, &mut known, true) } }
+                if store == 7 && r.chance(1, 5) { let o = gen_budget(&mut r); just_armed = matches!(o, Op::SetBudget(Some(_))); return o }
                 gen_xop(&mut r, &mut known, true)
             }).collect();
             let outs = match store {
@@ -1233,23 +1528,21 @@ non-trivial = at least one mutation through a view that changes the store AND at
                 6 => run_gr_vec(&ctx, &init, &ops, &mut r),
                 _ => run_gr_flaky(&ctx, &init, &ops, &mut r),
             };
-            let exp = oracle_ds(&init, &ops, bag, true);
+            let (exp, partial) = oracle_ds(&init, &ops, bag, true, &outs);
             let text = format!("as_dataset of {} init={:?} ops={:?}", GX_STORES[store], init, ops);
             if a.only.is_some() { println!("CASE {idx}: {text}\nIMPL   {outs:?}\nORACLE {exp:?}"); }
             if outs != exp {
                 let k = outs.iter().zip(exp.iter()).position(|(x, y)| x != y).unwrap_or(0);
-                sum.oracle_failures.push((idx.to_string(), format!("store=as_dataset of {} op#{k} {:?}: implementation returned {:?}, a plain {} store gives {:?}; full case: {text}", GX_STORES[store], ops.get(k), outs.get(k), format!("{bag:?}"), exp.get(k))));
+                sum.oracle_failures.push((idx.to_string(), format!("store=as_dataset of {} op#{k} {:?}: implementation returned {:?}, a plain {} store gives {:?}{}; full case: {text}", GX_STORES[store], ops.get(k), outs.get(k), format!("{bag:?}"), exp.get(k), after_note(exp.get(k), partial.get(k)))));
             }
-            let changed = ops.iter().zip(outs.iter()).any(|(o, x)| through_view(o, true) && (*x == Out::Flag(true) || matches!(x, Out::Count(n) if *n > 0)));
+            let changed = ops.iter().zip(outs.iter()).any(|(o, x)| { let x = plain(x); through_view(o, true) && (*x == Out::Flag(true) || matches!(x, Out::Count(n) if *n > 0)) });
             let nonempty = outs.iter().any(|x| matches!(x, Out::Triples(l) if !l.is_empty()) || matches!(x, Out::Quads(l) if !l.is_empty()));
             if seen.insert(text.clone()) && changed && nonempty { sum.distinct_nontrivial += 1; }
             sum.bump(&format!("store:as_dataset of {}", GX_STORES[store]));
             for o in &ops { sum.bump(&format!("xop:{}", op_name(o))); bump_routes(&mut sum, o); }
+            bump_errors(&mut sum, &ops, &exp);
             if sum.samples.len() < 4 { sum.samples.push(format!("case {idx}: {text} => {outs:?}")); }
-            // the model has no failing stores: the operations that are EXPECTED to report the injected error (they leave the
-            // state alone) and the switches are left out of the Coq case; an unexpected error stays in and disagrees
-            let keep: Vec<usize> = (0..ops.len()).filter(|k| !matches!(ops[*k], Op::SetFail(..)) && exp[*k] != Out::Err("MyErr(7)".into())).collect();
-            cases.push((idx, format!("xcase_ok {} the_pool {} {} {}", match bag { Kind::Set => "SSet", Kind::BagAll => "SBagAll", Kind::BagOne => "SBagOne" }, coq_list(init.iter().map(c_q4)), coq_list(keep.iter().map(|k| c_hop_op(&ops[*k]))), coq_list(keep.iter().map(|k| c_xout(&outs[*k]))))));
+            cases.push((idx, c_case(bag, &init, &ops, &outs, &exp, &partial)));
         } else {
             let store = r.below(6);
             let init: Vec<T3> = (0..ninit).map(|_| gen_t3(&mut r)).collect();
@@ -1288,7 +1581,7 @@ non-trivial = at least one mutation through a view that changes the store AND at
     }
     for (k, v) in ctx.notes.borrow().iter() { sum.bump_by(k, *v); }
     if a.only.is_none() {
-        let pool_def = format!("From Sophia.C11 Require Import Model.\nDefinition the_pool : pool := {}.", coq_list((1..=NT).map(|i| { let (k, at, tc) = pool_info(i); format!("({i}, ({k}, {}, {}))", coq_list(at.iter().map(|x| x.to_string())), coq_list(tc.iter().map(|x| x.to_string()))) })));
+        let pool_def = format!("From Sophia.C11 Require Import Model ModelErr.\nDefinition the_pool : pool := {}.", coq_list((1..=NT).map(|i| { let (k, at, tc) = pool_info(i); format!("({i}, ({k}, {}, {}))", coq_list(at.iter().map(|x| x.to_string())), coq_list(tc.iter().map(|x| x.to_string()))) })));
         sum.shards = write_shards(&a.out, &pool_def, &cases, a.shards);
         std::fs::write(format!("{}/summary.json", a.out), sum.to_json()).unwrap();
     }
